@@ -132,6 +132,17 @@ def run_shard(params, rec):
         rng.shuffle(cands)
         initial = cands[:rng.choice([1, 2, 3])]
         later = [a for a in cands[3:6]]
+        # block boundaries: the instruction that ends a translated block (the one before the loop tail
+        # / before the end marker) is preferred for breakpoints added after translation
+        if rng.random() < 0.5:
+            ends = []
+            for k_, (o_, ln_, t_, nm_) in enumerate(prog.instrs):
+                nxt_ = prog.instrs[k_ + 1][3] if k_ + 1 < len(prog.instrs) else "END"
+                if nxt_ in ("LOOPTAIL", "END") and nm_ != "LOOPTAIL" and o_ in executed and o_ not in initial:
+                    ends.append(o_)
+            if ends:
+                later = ends + [a for a in later if a not in ends][:2]
+                rec.count("later_breakpoint_on_block_end")
         scripts = {}
         shape = []
         for a in set(initial + later):
